@@ -227,8 +227,12 @@ class RunDirector(Director):
         if self.faults and kind in ("write", "open", "unlink", "rename"):
             key = w.key_for_path(path)
             if key is None and w.current_kind == "GET" and path.startswith(w.cache_dir + "/") \
-                    and not path.endswith("file_cache_config.json"):
-                key = w.actor_key.get(actor.name)  # unknown file name: the key this actor is fetching
+                    and not path.endswith("file_cache_config.json") and kind != "unlink":
+                # unknown file name: the key this actor is fetching.  Not for a deletion: under a file naming the
+                # harness cannot read, the file being deleted may be ANOTHER entry (an eviction victim), and a refused
+                # deletion there legitimately makes the request raise and forget that entry (benign variant b01, sha1
+                # names, C19 19c - DESIGN 15.5 item 34)
+                key = w.actor_key.get(actor.name)
             if key is not None or path.startswith(SIM_REMOTE_DIR + "/"):
                 cnt_key = (kind, path)
                 nth = self.per_path.get(cnt_key, 0)
